@@ -169,6 +169,9 @@ Not decided: collisions between distinct ASN.1 names after mangling; exact case-
     // ---------------- identifier annotation pairing ----------------
     annotation_sites(m, ctx);
 
+    // ---------------- no identifier is built from a raw ASN.1 name outside the manglers ----------------
+    bypass(m, ctx, &manglers);
+
     // ---------------- typescript ----------------
     if let Some(f) = anchor_fn(m, ctx, "C16.ts", None, "to_jer_identifier", Some("typescript")) {
         ctx.oblige("C16.ts", "to_jer_identifier", true);
@@ -274,4 +277,66 @@ fn annotation_sites(m: &Model, ctx: &mut Ctx) {
             ctx.violate("C16.annot", "renders-original-name", &f.file, f.line, "format_identifier_annotation must render `identifier = <original ASN.1 name>` for ordinary (non-hoisted) definitions");
         }
     }
+}
+
+/// `format_ident!` / `Ident::new` / text->TokenStream applied to an ASN.1 name that did not go through a mangler
+fn bypass(m: &Model, ctx: &mut Ctx, manglers: &[&FnInfo]) {
+    let mangler_names: Vec<String> = manglers.iter().map(|f| f.name.clone()).chain(["to_rust_const_case".to_string(), "to_rust_qualified_type".to_string()]).collect();
+    let audit: serde_json::Value = std::fs::read_to_string(ctx.verif.join("audit/ident_sites.json")).ok().and_then(|s| serde_json::from_str(&s).ok()).unwrap_or(json!({"benign": {}}));
+    let benign = audit["benign"].as_object().cloned().unwrap_or_default();
+    let raw_markers = [".name", ".identifier", ".name()", "field_name", ".variant_name", ".enumerable", ".enumerated", ".selected_option", ".choice_name", ".module_reference"];
+    let mut n = 0;
+    for f in m.fns.iter().filter(|f| f.module.starts_with("generator::rasn")) {
+        if mangler_names.contains(&f.name) {
+            continue;
+        }
+        let mut sites: Vec<(String, usize)> = vec![];
+        for mac in model::all_macros(&f.block) {
+            if mac.path.is_ident("format_ident") {
+                sites.push((model::norm_tokens(&mac.tokens.to_string()), mac.path.segments[0].ident.span().start().line));
+            }
+        }
+        for c in model::calls_in(&f.block) {
+            let callee = tok(&c.func);
+            if callee == "Ident::new" || callee == "TokenStream::from_str" {
+                sites.push((tok(&c.args), span_line(&c)));
+            }
+        }
+        for mc in model::method_calls_in(&f.block) {
+            if mc.method == "parse" && tok(&mc).contains("TokenStream") {
+                sites.push((tok(&mc.receiver), span_line(&mc)));
+            }
+        }
+        // inline `{var}` arguments of format_ident! refer to locals: resolve one step
+        let body = tok(&f.block);
+        for (args, line) in sites {
+            n += 1;
+            let mut text = args.clone();
+            // substitute locals named in "{name}" placeholders by their initialiser text
+            for part in args.split('{').skip(1) {
+                if let Some(var) = part.split('}').next() {
+                    if !var.is_empty() && var.chars().all(|c| c.is_alphanumeric() || c == '_') {
+                        if let Some(init) = body.split(&format!("let {}=", var)).nth(1).and_then(|s| s.split(';').next()) {
+                            text.push_str(" <- ");
+                            text.push_str(init);
+                        }
+                    }
+                }
+            }
+            let mentions_raw = raw_markers.iter().any(|mk| text.contains(mk));
+            if !mentions_raw {
+                continue;
+            }
+            // every raw mention must sit inside a mangler call
+            let mangled = mangler_names.iter().any(|mn| text.contains(&format!("{}(", mn)));
+            let key = format!("{}|{}", f.name, args.chars().take(60).collect::<String>());
+            ctx.oblige("C16.bypass", &key, true);
+            if mangled || benign.contains_key(&crate::report::sanitize_key(&key)) {
+                continue;
+            }
+            ctx.violate("C16.bypass", &crate::report::sanitize_key(&key), &f.file, line,
+                &format!("{} builds an identifier from an ASN.1 name without the case/keyword manglers (`{}`): a name that is a Rust keyword (or differs from the escaped spelling used at the declaration) is emitted as is", f.name, text.chars().take(140).collect::<String>()));
+        }
+    }
+    ctx.extra.insert("identifier_construction_sites".into(), json!(n));
 }
